@@ -426,11 +426,7 @@ func parseString(l *syntax.Lexer) (syntax.Token, error) {
 				literal = append(literal, ch)
 				l.Next()
 			}
-			l.Lines = append(l.Lines, syntax.LineInfo{
-				Indents:   0,
-				StartIdx:  l.GetCursor() + 1,
-				Continued: true,
-			})
+			l.Lines = append(l.Lines, l.ContinuedLine(l.GetCursor()+1))
 			// add literal (for CR/LF only, append oneChar; for CR+LF, append LF)
 			literal = append(literal, l.GetCurrentChar())
 		case LeftDoubleQuoteI, LeftDoubleQuoteII, LeftSingleQuoteI, LeftSingleQuoteII, LeftLibQuoteI:
@@ -618,11 +614,7 @@ func parseComment(l *syntax.Lexer) (bool, syntax.Token, error) {
 				if (ch == syntax.RuneCR && p == syntax.RuneLF) || (ch == syntax.RuneLF && p == syntax.RuneCR) {
 					l.Next()
 				}
-				l.Lines = append(l.Lines, syntax.LineInfo{
-					Indents:   0,
-					StartIdx:  l.GetCursor() + 1,
-					Continued: true,
-				})
+				l.Lines = append(l.Lines, l.ContinuedLine(l.GetCursor()+1))
 			case LeftDoubleQuoteI:
 				if multiCommentType == commentTypeQuoteI {
 					quoteCount += 1
